@@ -168,22 +168,32 @@ def suite_wire(pid, tier):
     import subprocess
     t0 = time.time()
     d = core.rundir("%s-suitewire" % pid)
-    logf = os.path.join(d, "wire.log")
-    env = dict(core.GOENV, VERIF_WIRE=logf)
     runs = 1 if tier == "quick" else 3
-    for _ in range(runs):
-        p = subprocess.run(["go", "test", "-tags", "verif", "-vet=off", "-count=1", "."], cwd=core.REPO, env=env, capture_output=True, text=True, timeout=900)
-    if not os.path.exists(logf) or os.path.getsize(logf) == 0:
-        raise core.Infra("suite wire tap produced nothing (build failure?):\n" + (p.stdout + p.stderr)[-1500:])
     tool = os.path.join(core.BIN, "wswire")
     b = subprocess.run(["go", "build", "-o", tool, "./cmd/wswire"], cwd=core.HARNESS, env=core.GOENV, capture_output=True, text=True)
     if b.returncode != 0:
         raise core.Infra("wswire build failed: " + b.stderr)
-    tr = os.path.join(d, "wire.ndjson")
-    c = subprocess.run([tool, logf, tr], capture_output=True, text=True)
-    if c.returncode != 0:
-        raise core.Infra("wswire failed: " + c.stderr)
-    res = core.validate("WSWireTrace.tla", "WSWireTrace.cfg", [tr], "%s-suitewire" % pid)
+    trs = []
+    summary = []
+    for i in range(runs):
+        # one log per test process: connection ids are per process
+        logf = os.path.join(d, "wire.%d.log" % i)
+        env = dict(core.GOENV, VERIF_WIRE=logf)
+        p = subprocess.run(["go", "test", "-tags", "verif", "-vet=off", "-count=1", "."], cwd=core.REPO, env=env, capture_output=True, text=True, timeout=900)
+        if not os.path.exists(logf) or os.path.getsize(logf) == 0:
+            raise core.Infra("suite wire tap produced nothing (build failure?):\n" + (p.stdout + p.stderr)[-1500:])
+        tr = os.path.join(d, "wire.%d.ndjson" % i)
+        c = subprocess.run([tool, logf, tr], capture_output=True, text=True)
+        if c.returncode != 0:
+            raise core.Infra("wswire failed: " + c.stderr)
+        trs.append(tr)
+        summary.append(c.stdout.strip())
+    tr = trs[0]
+
+    class _C:  # summary line for the log
+        stdout = "; ".join(summary)
+    c = _C()
+    res = core.validate("WSWireTrace.tla", "WSWireTrace.cfg", trs, "%s-suitewire" % pid)
     log("[%s] repository test suite under the wire tap: %s; %d connections / %d events validated" % (pid, c.stdout.strip(), res["traces"], res["events"]))
     violations = []
     for rj in res["rejections"][:3]:
